@@ -152,6 +152,26 @@ def refs_member(x, name):
     return False
 
 
+def denotes_this(p, x):
+    """the value registered for this sandbox: `this` itself, or an entry object whose only content is `this` (a one-member struct
+    wrapping the pointer)"""
+    if strip_casts(x) == ("this",):
+        return True
+    for _ in range(4):
+        if isinstance(x, tuple) and x[:1] in (("var",), ("tmp",)):
+            flds = [(k, v) for k, v in p.state.mem.items() if isinstance(k, tuple) and k[:2] == ("fld", x)]
+            if flds:
+                return len(flds) == 1 and strip_casts(flds[0][1]) == ("this",)
+            nx = p.state.mem.get(("copyof", x)) or p.state.mem.get(("alias", x))
+            if nx is None:
+                v = p.state.mem.get(x)
+                return v is not None and strip_casts(v) == ("this",)
+            x = nx
+        else:
+            return False
+    return False
+
+
 def aborts_unless(p, i0, r):
     """is the outcome r of the compare-exchange at event i0 asserted (abort check) before the next status / list operation?"""
     evs = p.events
@@ -205,7 +225,7 @@ def check_create(rep, db, f, inst, vals):
             vals["C"] = argvals(stores[0][1])[0][1]
             locks = [i for i, e in enumerate(evs) if e.kind == "CALL" and q.short(e.a) in q.EXCLUSIVE_GUARDS and any(is_global(a, "::sandbox_list_lock") for a in e.b)]
             unl = [i for i, e in enumerate(evs) if e.kind == "UNLOCK"]
-            if len(push) != 1 or evs[push[0]].b != [("this",)] or push[0] < be[0] or not locks or not (locks[0] < push[0]) or not any(u > push[0] for u in unl) or any(locks[0] < u < push[0] for u in unl):
+            if len(push) != 1 or len(evs[push[0]].b) != 1 or not denotes_this(p, evs[push[0]].b[0]) or push[0] < be[0] or not locks or not (locks[0] < push[0]) or not any(u > push[0] for u in unl) or any(locks[0] < u < push[0] for u in unl):
                 rep.violation("R-C14-registry", site(f), "the sandbox is not appended exactly once, after backend creation, inside the unique list guard", f["loc"], inst)
                 return
             # bool-returning backends: insertion only when creation succeeded
@@ -300,7 +320,7 @@ def check_destroy(rep, db, f, inst, vals):
             fr = (evs[fi[0]].extra or {}).get("ret")
             same = lambda x: x == fr or (isinstance(x, tuple) and x[:1] in (("var",), ("tmp",)) and p.state.mem.get(("copyof", x)) == fr)
             exist = any(e.kind == "ASSUME" and e.extra.get("abort_check") and q.mentions(e.a, same) for e in evs[fi[0]:er[0]])
-            if len(fa) < 3 or fa[2] != ("this",) or not exist:
+            if len(fa) < 3 or not denotes_this(p, fa[2]) or not exist:
                 rep.violation("R-C14-registry", site(f), "removal does not search for this sandbox and abort when it is absent", f["loc"], inst)
                 return
             ea = argvals(evs[er[0]])
